@@ -836,11 +836,14 @@ func (env *SEnv) builtin(name string, args []*SExpr, e *SExpr) *SVal {
 		}
 		if env.local != nil {
 			inner := env.local
+			cur := env.cur
+			// locals are values, not heap locations of the caller's view: inside old(..) a local keeps its
+			// current value (as in Dafny); only parameters (entry values) and heap reads go back to the entry state
 			ne.local = func(n string, st *State) *SVal {
 				if v, ok := env.oldVars[n]; ok {
 					return v
 				}
-				return inner(n, st)
+				return inner(n, cur)
 			}
 		}
 		return ne.tr(args[0])
